@@ -695,7 +695,7 @@ def main(argv):
     if not c.replay or "batch_seed" in json.load(open(c.replay)):
         import mirrorlib
         mirrorlib.mirror_check(c, "C06", ["c06"], "C06 summaries along mirror histories", quick=(30, 40), thorough=(400, 50),
-                               extra=[], prove=False, templates=[8])
+                               extra=[], prove=False, templates=[8, 10])
         # and under concurrent callers with overlapping proofs (partly refused requests): whatever entered a view is counted
         mirrorlib.mirror_concurrent(c, ["c06"], "C06 summaries under concurrent callers")
     c.finish()
